@@ -33,6 +33,7 @@ PhaseClauses(q) ==
   \cup (IF "denslaw" \in DOMAIN q /\ q.denslaw \notin {"lt", "eq"} THEN {"C02:density-law"} ELSE {})
   \cup (IF "densdouble" \in DOMAIN q /\ q.densdouble THEN {"C02:density-law(coarse: doubled in one step beyond nucleation)"} ELSE {})
   \cup (IF ~AllEq(q.fconc, "eq") THEN {"C01:fconc=weighted-M3"} ELSE {})
+  \cup (IF "xbtab" \in DOMAIN q /\ ~q.xbtab THEN {"C01:precipitate-composition-of-a-size-class=backend(this phase)"} ELSE {})
   \cup (IF ~q.removed01 THEN {"C02:removed-classes-hold-[0,1)"} ELSE {})
   \cup (IF ~q.clipok THEN {"C02:stored=step-result-minus-classes-below-one"} ELSE {})
   \cup (IF ~q.psdnonneg THEN {"C03:psd>=0"} ELSE {})
